@@ -27,7 +27,7 @@ SHARD_TIMEOUT = {"quick": 600, "thorough": 3000}
 def required_counters(tier):
     return ["runs:random", "runs:pct", "runs:forced", "pop-raced-stop", "shutdown-found-queued", "followup-during-shutdown",
             "tasks:serviced", "tasks:cancelled", "tasks:still-queued", "resize-up", "resize-down", "cancel_pending:true",
-            "cancel_pending:false", "task-raised", "fifo-checked", "flood-tasks"]
+            "cancel_pending:false", "task-raised", "fifo-checked", "flood-tasks", "late-resize-runs"]
 
 
 def gen_scenario(rng):
@@ -144,10 +144,15 @@ def run_scenario(scn, strat):
         for r in sorted(scn["resizes"], key=lambda r: r["at"]):
             if r["at"] > s.now - 1000000.0:
                 w.sleep(max(0, r["at"] - (s.now - 1000000.0)))
-            if info["shutdown_called_step"] is not None:
+            if info["shutdown_called_step"] is not None and not r.get("after_shutdown"):
                 return
+            if r.get("after_shutdown"):
+                # a resize of a pool whose shutdown() has returned (timed out or not): wait for that
+                w.wait_until(lambda: info["shutdown_returned"] is not None, timeout=30.0)
             disp.set_thread_count(r["n"])
             hist.add("resize", s.steps, r["n"])
+            if r.get("after_shutdown"):
+                hist.add("resize-after-shutdown", s.steps, r["n"])
             info["last_resize"] = r["n"]
 
     def shutter():
@@ -230,6 +235,14 @@ def judge(scn, hist, w, info):
     sd = scn.get("shutdown")
     sd_step = info["shutdown_called_step"]
     resized_during_shutdown = sd_step is not None and any(e[0] == "resize" and e[1] >= sd_step for e in hist.ev)
+    if info["shutdown_returned"] is not None and any(e[0] == "resize-after-shutdown" for e in hist.ev):
+        # the pool was given a size again after shutdown() had returned: it must converge to that size
+        alive_now = [t for t in w.sched.threads if t.role == "worker" and t.state != "done"]
+        want = info["last_resize"]
+        if len(alive_now) != want:
+            out.append(("resize-after-shutdown-did-not-converge",
+                        f"{len(alive_now)} handler threads alive at quiescence, {want} requested after shutdown() had returned "
+                        f"(threads={disp.threads}, stop_count={disp.stop_count})"))
     if resized_during_shutdown:
         # set_thread_count() racing with / after shutdown() legitimately restarts
         # workers: the post-shutdown clauses are not judged for such histories
@@ -326,6 +339,17 @@ def run_one(acc, scn, strat, label):
             acc.count("leaked_threads", leaked)
 
 
+LATE_RESIZE = [
+    # two task bodies outlast shutdown()'s timeout; the pool is then sized again; then the bodies end
+    {"workers": 2, "submitters": [{"tasks": [{"id": 0, "kind": "block"}, {"id": 1, "kind": "block"}, {"id": 2, "kind": "plain"}], "delay": 0, "gap": 0}],
+     "resizes": [{"at": 7.0, "n": 2, "after_shutdown": True}], "shutdown": {"at": 0.5, "cancel_pending": False}, "release_at": 20.0},
+    {"workers": 3, "submitters": [{"tasks": [{"id": 0, "kind": "block"}, {"id": 1, "kind": "plain"}], "delay": 0, "gap": 0}],
+     "resizes": [{"at": 7.0, "n": 1, "after_shutdown": True}], "shutdown": {"at": 0.2, "cancel_pending": True}, "release_at": 20.0},
+    {"workers": 1, "submitters": [{"tasks": [{"id": 0, "kind": "block"}], "delay": 0, "gap": 0}],
+     "resizes": [{"at": 7.0, "n": 3, "after_shutdown": True}], "shutdown": {"at": 0.2, "cancel_pending": False}, "release_at": 20.0},
+]
+
+
 def flood_scenario(n=1100):
     """one worker held by a blocking task while n plain tasks queue up behind it (a bounded queue that
     silently drops entries would lose some)"""
@@ -373,6 +397,11 @@ def run_shard(spec):
             strat = {"kind": "np"} if sch == 0 else {"kind": "random", "seed": spec["seed"] * 7 + sch, "p": 0.02}
             run_one(acc, scn, strat, "flood")
         acc.count("flood-tasks", len(scn["submitters"][0]["tasks"]))
+        for lr in LATE_RESIZE:
+            for sch in range(spec["schedules"]):
+                strat = {"kind": "np"} if sch == 0 else {"kind": "random", "seed": spec["seed"] * 11 + sch, "p": 0.05}
+                run_one(acc, lr, strat, "late-resize")
+                acc.count("late-resize-runs")
         acc.sample({"flood": "1 blocked worker, %d tasks queued behind it" % (len(scn["submitters"][0]["tasks"]) - 1)})
     else:
         scn = spec.get("scn") or gen_scenario(random.Random(spec["gen_seed"]))
